@@ -438,9 +438,12 @@ func (matrix *SparseFloat32Matrix) PermuteRows(pi []int) error {
   if n != m {
     return fmt.Errorf("SymmetricPermutation(): matrix is not a square matrix")
   }
+  if len(pi) != n {
+    return fmt.Errorf("SymmetricPermutation(): permutation has invalid length")
+  }
   // permute matrix
   for i := 0; i < n; i++ {
-    if pi[i] < 0 || pi[i] > n {
+    if pi[i] < 0 || pi[i] >= n {
       return fmt.Errorf("SymmetricPermutation(): invalid permutation")
     }
     if i != pi[i] && pi[i] > i {
@@ -454,9 +457,12 @@ func (matrix *SparseFloat32Matrix) PermuteColumns(pi []int) error {
   if n != m {
     return fmt.Errorf("SymmetricPermutation(): matrix is not a square matrix")
   }
+  if len(pi) != n {
+    return fmt.Errorf("SymmetricPermutation(): permutation has invalid length")
+  }
   // permute matrix
   for i := 0; i < m; i++ {
-    if pi[i] < 0 || pi[i] > n {
+    if pi[i] < 0 || pi[i] >= n {
       return fmt.Errorf("SymmetricPermutation(): invalid permutation")
     }
     if i != pi[i] && pi[i] > i {
